@@ -673,3 +673,21 @@ Proof.
     as (_ & Hv & _).
   apply Hv.
 Qed.
+
+(* non-vacuity of the grammar theorems: the compress-like example above is
+   such a word (interleaved with reads of the input) *)
+Example ex_file_word :
+  file_word true true true 3 [1]
+  = [Unlink (POut 0); Unlink (PTmp 0); CreateTrunc (PTmp 0);
+     Write (PTmp 0); Write (PTmp 0); Write (PTmp 0); Close (PTmp 0);
+     OpenAppend (PTmp 0); Write (PTmp 0); Close (PTmp 0);
+     Rename (PTmp 0) (POut 0)].
+Proof. reflexivity. Qed.
+
+(* a word with two append rounds and no stale files, created by open-append
+   (join / split / tdms2rtdc style); killed inside the second round *)
+Example ex_file_word_fault :
+  let t := file_word false false false 2 [1; 2] in
+  let s := exec_fault (init_fs (cfg1 Join false false)) t 9 Kill in
+  (s (POut 0), view (wcount 0 t) (s (PTmp 0))) = (Absent, VPartial).
+Proof. vm_compute. reflexivity. Qed.
